@@ -155,7 +155,7 @@ func runCLIOnce(c *core.Ctx, r *request, n int) runOut {
 	for _, nm := range names {
 		content, _ := os.ReadFile(filepath.Join(dir, nm))
 		fmt.Fprintf(&b, "--file %s--\n", nm)
-		b.WriteString(strings.ReplaceAll(string(content), dir, "@DIR@"))
+		b.WriteString(dropLogDates(nm, strings.ReplaceAll(string(content), dir, "@DIR@")))
 	}
 	return runOut{"proc", b.String()}
 }
@@ -231,7 +231,7 @@ func runInprocPair(c *core.Ctx, r *request, n int) []runOut {
 		for _, nm := range names {
 			content, _ := os.ReadFile(filepath.Join(dir, nm))
 			fmt.Fprintf(&b, "--file %s--\n", norm(nm))
-			b.WriteString(norm(string(content)))
+			b.WriteString(dropLogDates(norm(nm), norm(string(content))))
 		}
 		outs = append(outs, runOut{"inproc", b.String()})
 	}
@@ -265,6 +265,23 @@ func inprocChild(specfile, dir string) {
 		}
 		os.WriteFile(filepath.Join(dir, fmt.Sprintf("status%d", it+1)), []byte(status), 0644)
 	}
+}
+
+// the support logs carry a date and timings by design: those lines are dropped, the rest (the --moved-taxa
+// and --per-branches tables, the input and output names) is compared like any other output
+func dropLogDates(name, content string) string {
+	if !strings.Contains(name, "_log") {
+		return content
+	}
+	var b strings.Builder
+	for _, l := range strings.SplitAfter(content, "\n") {
+		t := strings.TrimSpace(l)
+		if strings.HasPrefix(t, "Date ") || strings.HasPrefix(t, "Start ") || strings.HasPrefix(t, "End ") || strings.HasPrefix(t, "Date\t") {
+			continue
+		}
+		b.WriteString(l)
+	}
+	return b.String()
 }
 
 func firstDiff(a, b string) string {
@@ -372,7 +389,7 @@ func execute(c *core.Ctx, r *request, nruns int) {
 // "deterministic for a given seed": a command that ignored --seed and used a constant would also be deterministic)
 func seedUse(c *core.Ctx, in *inputs) {
 	random := map[string]bool{"shuffletips": true, "gen-yule": true, "gen-uniform": true, "prune-random": true, "sample": true,
-		"brlen-setrand": true, "support-setrand": true, "rotate-rand": true, "acr-random": true, "asr-protein-random": true}
+		"brlen-setrand": true, "support-setrand": true, "rotate-rand": true, "asr-protein-random": true}
 	var res []string
 	for _, r := range cliTemplates(c, in) {
 		if !random[r.tpl] {
@@ -401,7 +418,13 @@ func commandsCase(c *core.Ctx, in *inputs) {
 		if err == nil && found != nil {
 			path = strings.TrimPrefix(found.CommandPath(), "gotree ")
 		}
-		pairs = append(pairs, r.tpl+"="+path)
+		threads := "1"
+		for i, a := range r.args {
+			if a == "-t" && i+1 < len(r.args) {
+				threads = r.args[i+1]
+			}
+		}
+		pairs = append(pairs, r.tpl+"="+path+"="+threads)
 	}
 	c.Emit("C18.commands", core.StrList(liveCommands()), core.StrList(pairs))
 }
@@ -454,7 +477,7 @@ func Run(c *core.Ctx) {
 		for rep := 0; rep < 2; rep++ {
 			in := genInputs(c, rep)
 			for _, r := range cliTemplates(c, in) {
-				if r.threaded || strings.HasPrefix(r.tpl, "support-") || r.tpl == "consensus" || r.tpl == "edgetrees" || strings.HasPrefix(r.tpl, "reformat-") {
+				if r.threaded || strings.HasPrefix(r.tpl, "support-") || r.tpl == "consensus" || strings.HasPrefix(r.tpl, "edgetrees") || r.tpl == "roccurve" || strings.HasPrefix(r.tpl, "reformat-") {
 					execute(c, r, 4)
 				}
 			}
